@@ -371,7 +371,8 @@ func explore(r *vlib.Run, spec hashSpec, names []string, maxDepth int, group str
 					r.FailIn(group, group+"/"+classify(d, nh), histString(nh), d, map[string]any{"hash": spec.name, "names": names, "history": histString(nh)})
 					continue // do not explore beyond a violating transition
 				}
-				key := dump(e.t, e.held)
+				// product state: real private state + caller-held slices + model state
+				key := dump(e.t, e.held) + "#" + vlib.DeepDump(e.m.ch)
 				if _, ok := seen[key]; !ok {
 					seen[key] = struct{}{}
 					states++
